@@ -116,6 +116,32 @@ func (h *hist) toWAL() bool {
 	return h.openConns(len(h.conns))
 }
 
+// toRollback leaves WAL mode the way OP_JournalMode does: the log is closed as
+// the last connection (checkpoint, -wal and -shm unlinked) and the header is
+// rewritten by a rollback-journal transaction.
+func (h *hist) toRollback() bool {
+	n := len(h.conns)
+	for len(h.conns) > 1 {
+		h.conns[len(h.conns)-1].Close()
+		h.conns = h.conns[:len(h.conns)-1]
+	}
+	c := h.conns[0]
+	if at, e := c.WalCloseLast(h.ref); e != 0 || at != "" {
+		h.r.Failf("hist.commit-refused", "closing the WAL as the last connection failed at %q: %v", at, e)
+		return false
+	}
+	c.UnlockAll()
+	c.Mode = h.jmode
+	res := c.WriteTx(TxProgram{NewSize: h.ref.N(), Outcome: OutCommit, SetWAL: 2}, h.ref)
+	if res.Outcome != OutCommit {
+		h.r.Failf("hist.commit-refused", "switch back to a rollback journal refused at %s: %v", res.FailedAt, res.Errno)
+		return false
+	}
+	h.ref = res.After
+	h.wal = false
+	return h.openConns(n)
+}
+
 func maxU32(a, b uint32) uint32 {
 	if a > b {
 		return a
@@ -223,9 +249,7 @@ func runC04(r *Run) {
 		if h.ref.N() == 0 {
 			kinds = []int{100, 0, 0, 0, 4, 4, 6, 0}
 		}
-		if h.wal {
-			kinds[1] = 0
-		} else {
+		if !h.wal {
 			kinds[2] = 0
 		}
 		k := t.Pick(kinds)
@@ -233,6 +257,13 @@ func runC04(r *Run) {
 		case 0:
 			desc, _ = h.commit(t)
 		case 1:
+			if h.wal {
+				desc = "switch-to-rollback"
+				if !h.toRollback() {
+					return
+				}
+				break
+			}
 			desc = "switch-to-wal"
 			if !h.toWAL() {
 				return
@@ -282,9 +313,10 @@ func runC04(r *Run) {
 			}
 		case 6:
 			ps := h.pageSize
-			im := MakeImage(ps, uint32(t.Range(1, 40)), h.wal, i)
+			imWAL := h.wal != t.Chance(1, 4) // mostly the current mode, sometimes the other one
+			im := MakeImage(ps, uint32(t.Range(1, 40)), imWAL, i)
 			if t.Chance(1, 5) {
-				im = MakeImage(ps, []uint32{255, 256, 257, 513}[t.Next(4)], h.wal, i)
+				im = MakeImage(ps, []uint32{255, 256, 257, 513}[t.Next(4)], imWAL, i)
 			}
 			h.closeConns()
 			res := h.importImage(im)
@@ -292,6 +324,7 @@ func runC04(r *Run) {
 			if r.Check(!res.Panicked, "c04.import-panic", "import panicked: %s", res.PanicMsg) && r.Check(res.Code == 200, "c04.import", "import of a valid image failed: %d %s", res.Code, res.Body) {
 				h.ref = im.ImportedForm()
 				h.dropped = false
+				h.wal = imWAL
 			}
 			if !h.openConns(nconn) {
 				return
